@@ -549,7 +549,7 @@ fn run_wfmt(gen: bool, detail: bool, a: &[&str]) -> Option<String> {
     let variant: u8 = a[0].parse().ok()?;
     let slash = a.iter().position(|t| *t == "/")?;
     let mut items: Vec<Option<String>> = Vec::new();
-    let mut total = 2;
+    let mut total = 2 + 80;
     for t in &a[1..slash] {
         if *t == "f" {
             items.push(None);
@@ -565,6 +565,9 @@ fn run_wfmt(gen: bool, detail: bool, a: &[&str]) -> Option<String> {
     let r = catch_unwind(AssertUnwindSafe(|| match variant {
         0 => Some(write!(w, "{}", Pieces(&items))),
         1 => Some(write!(w, "[{}]", Pieces(&items))),
+        // literal-only format strings (`Arguments::as_str()` is Some): no items
+        2 => Some(write!(w, "done\n")),
+        3 => Some(write!(w, "literal text without arguments 0123456789 abcdefghijklmnopqrstuvwxyz")),
         _ => None,
     }));
     let r = match r {
